@@ -360,7 +360,8 @@ Proof.
     assert (F0 : nthb (set_nth 8 0 p) 8 = 0) by (unfold nthb; apply nth_set_nth_same; lia).
     rewrite A0, A1, A4, AZ, (Hcsw 8%nat (or_intror eq_refl)), Ek, F0.
     assert (Hplv : prefix_lengths_valid (set_nth 8 0 p) = prefix_lengths_valid p).
-    { unfold prefix_lengths_valid. rewrite !nthb_set_other by lia. reflexivity. }
+    { unfold prefix_lengths_valid, prefix_host_bits_zero. rewrite !nthb_set_other by lia.
+      rewrite !skipn_set_nth by lia. reflexivity. }
     split; [split; [auto 10|]; split; [exact Ht|]; split; [rewrite Hplv; exact Hpl|left; reflexivity]|].
     split; [reflexivity|].
     split; [reflexivity|]. split; [reflexivity|]. split; [reflexivity|]. split; [|intros; discriminate].
